@@ -7,7 +7,9 @@
 // label missing / release-name annotation missing / release-namespace annotation missing / label
 // wrong / owned by another release name / owned by the same name in another namespace). The
 // placement runs under install, install --replace over an uninstalled-with-history release, and
-// an upgrade that adds the resources, each with and without TakeOwnership. Oracle:
+// an upgrade that adds the resources, each with and without TakeOwnership. A share of the
+// placements gives slots an explicit metadata.namespace (ns2) other than the release namespace,
+// with the pre-existing object living in that namespace, and runs the op with --atomic. Oracle:
 //
 //	took-over-unowned            the op succeeded although a to-be-created resource existed without
 //	                             correct ownership metadata and take-ownership was not requested
@@ -68,8 +70,8 @@ func init() {
 	core.Register(&core.Prop{
 		ID:    "C07",
 		Level: "exploration",
-		Rule: "place: every assignment of the 9 ownership classes to the to-be-created resources of charts with 1-2 (quick) / 1-3 (thorough) resource slots is enumerated, larger charts (up to 6 slots) are sampled; each placement runs under install, install --replace over an uninstalled release with history, and upgrade adding the resources, with and without take-ownership, on memory/secrets/configmaps storage. hist: seeded drift histories shared with C02 under the DELETE-target and ownership-metadata monitors. " +
-			"distinct_nontrivial counts distinct (scenario, take-ownership, sorted multiset of ownership classes, verdict) tuples plus distinct (op kind+flags, outcome, #deletes) shapes of history ops that deleted something.",
+		Rule: "place: every assignment of the 9 ownership classes to the to-be-created resources of charts with 1-2 (quick) / 1-3 (thorough) resource slots is enumerated, larger charts (up to 6 slots) are sampled; the enumerated placements are repeated, and the sampled ones mixed, with slots whose manifest document sets metadata.namespace to a second namespace where the pre-existing object lives, and with --atomic; each placement runs under install, install --replace over an uninstalled release with history, and upgrade adding the resources, with and without take-ownership, on memory/secrets/configmaps storage. hist: seeded drift histories shared with C02 under the DELETE-target and ownership-metadata monitors. " +
+			"distinct_nontrivial counts distinct (scenario, take-ownership, atomic, sorted multiset of ownership classes, number of other-namespace slots, verdict) tuples plus distinct (op kind+flags, outcome, #deletes) shapes of history ops that deleted something.",
 		Assumptions: []string{
 			"the simulated API server applies requests like a real API server and logs every request with the operation's tag; release storage goes through the same log",
 			"pre-existing objects are placed directly in the object store before the operation under test starts",
@@ -85,11 +87,16 @@ func init() {
 }
 
 type caseData struct {
-	Mode    string         `json:"mode"` // place | hist
-	Slots   []int          `json:"slots,omitempty"`
-	Classes []int          `json:"classes,omitempty"`
-	Driver  string         `json:"driver,omitempty"`
-	DC      *gen.DriftCase `json:"dc,omitempty"`
+	Mode    string `json:"mode"` // place | hist
+	Slots   []int  `json:"slots,omitempty"`
+	Classes []int  `json:"classes,omitempty"`
+	Driver  string `json:"driver,omitempty"`
+	// OtherNS[i]: slot i's manifest document carries an explicit metadata.namespace (ns2) that is
+	// not the release namespace; its pre-existing object lives in that namespace.
+	OtherNS []bool `json:"otherNS,omitempty"`
+	// Atomic: the op under test runs with --atomic
+	Atomic bool           `json:"atomic,omitempty"`
+	DC     *gen.DriftCase `json:"dc,omitempty"`
 	// Only restricts a placement to one "scenario/takeOwnership" combination (replay aid)
 	Only string `json:"only,omitempty"`
 }
@@ -99,10 +106,16 @@ var drivers = []string{"memory", "secrets", "configmaps"}
 func genCases(seed int64, tier string) []core.Case {
 	rng := rand.New(rand.NewSource(seed*15485863 + 7))
 	var out []core.Case
-	add := func(slots, classes []int) {
+	addNS := func(slots, classes []int, other []bool, atomic bool) {
 		i := len(out)
-		out = append(out, core.Case{ID: fmt.Sprintf("place%d", i), Data: core.J(caseData{Mode: "place", Slots: append([]int(nil), slots...), Classes: append([]int(nil), classes...), Driver: drivers[i%3]})})
+		var o []bool
+		for j := range slots {
+			// a cluster-scoped kind has no namespace to differ in
+			o = append(o, j < len(other) && other[j] && gen.PolPool[slots[j]].Kind != "ClusterRole")
+		}
+		out = append(out, core.Case{ID: fmt.Sprintf("place%d", i), Data: core.J(caseData{Mode: "place", Slots: append([]int(nil), slots...), Classes: append([]int(nil), classes...), Driver: drivers[i%3], OtherNS: o, Atomic: atomic})})
 	}
+	add := func(slots, classes []int) { addNS(slots, classes, nil, false) }
 	pickSlots := func(n int) []int {
 		p := rng.Perm(len(gen.PolPool))[:n]
 		return p
@@ -127,6 +140,19 @@ func genCases(seed int64, tier string) []core.Case {
 				y /= nc
 			}
 			add(pickSlots(n), cl)
+			// the same placement with resources that carry an explicit metadata.namespace other than
+			// the release namespace (the pre-existing object lives there), with and without --atomic
+			switch n {
+			case 1:
+				addNS(pickSlots(n), cl, []bool{true}, false)
+				addNS(pickSlots(n), cl, []bool{true}, true)
+			case 2:
+				addNS(pickSlots(n), cl, [][]bool{{true, false}, {true, true}, {false, true}}[x%3], x%2 == 1)
+			default:
+				if x%4 == 0 {
+					addNS(pickSlots(n), cl, []bool{x%8 == 0, true, x%3 == 0}, x%3 == 1)
+				}
+			}
 		}
 	}
 	for i := 0; i < sampled; i++ {
@@ -143,7 +169,11 @@ func genCases(seed int64, tier string) []core.Case {
 				cl[j] = rng.Intn(nc)
 			}
 		}
-		add(pickSlots(n), cl)
+		other := make([]bool, n)
+		for j := range other {
+			other[j] = rng.Intn(10) < 3
+		}
+		addNS(pickSlots(n), cl, other, rng.Intn(4) == 0)
 	}
 	for h := 0; h < hist; h++ {
 		drv := drivers[h%3]
@@ -169,6 +199,7 @@ func post(a *core.Agg) string {
 	need("written_manifest_objects_metadata_checked", 500)
 	need("delete_targets_checked", 200)
 	need("hist_ops_monitored", 300)
+	need("placements_with_explicit_other_namespace", 200)
 	if len(msgs) > 0 {
 		return "monitors observed too little: " + strings.Join(msgs, "; ")
 	}
@@ -204,6 +235,8 @@ func run(c core.Case, verbose bool) core.Result {
 
 func slotName(s int) string { return rel + "-" + gen.PolPool[s].Suffix }
 
+func (d caseData) inOtherNS(i int) bool { return i < len(d.OtherNS) && d.OtherNS[i] }
+
 // charts: vA = base resources only; vB = base + the slots under test.
 func charts(d caseData) (vA, vB gen.Files) {
 	mk := func(withSlots bool, content string) gen.Files {
@@ -220,9 +253,13 @@ func charts(d caseData) (vA, vB gen.Files) {
 		}
 		f["templates/shadow.yaml"] = gen.PolYAML(shadowKind, "{{ .Release.Name }}-"+gen.PolPool[d.Slots[0]].Suffix, content, "{{ .Values.k | quote }}", nil)
 		if withSlots {
-			for _, s := range d.Slots {
+			for i, s := range d.Slots {
 				sl := gen.PolPool[s]
-				f["templates/"+sl.Suffix+".yaml"] = gen.PolYAML(sl.Kind, "{{ .Release.Name }}-"+sl.Suffix, "c1", "{{ .Values.k | quote }}", nil)
+				y := gen.PolYAML(sl.Kind, "{{ .Release.Name }}-"+sl.Suffix, "c1", "{{ .Values.k | quote }}", nil)
+				if d.inOtherNS(i) {
+					y = strings.Replace(y, "metadata:\n", "metadata:\n  namespace: "+otherNS+"\n", 1)
+				}
+				f["templates/"+sl.Suffix+".yaml"] = y
 			}
 		}
 		return f
@@ -235,16 +272,27 @@ func prepopulate(w *env.World, d caseData) map[int]string {
 	keys := map[int]string{}
 	for i, s := range d.Slots {
 		cl := d.Classes[i]
+		sl := gen.PolPool[s]
 		if cl == clAbsent {
+			if d.inOtherNS(i) {
+				// one of the bystanders lives in ns2 under a release resource's name: "absent" means absent
+				for j := range sim.Resources {
+					if r := sim.Resources[j]; r.Kind == sl.Kind {
+						w.Sim.Remove(sim.Key(r.Group, r.Plural, otherNS, slotName(s)))
+					}
+				}
+			}
 			continue
 		}
-		sl := gen.PolPool[s]
 		var o map[string]any
 		if err := yaml.Unmarshal([]byte(gen.PolYAML(sl.Kind, slotName(s), "pre", `"pre"`, nil)), &o); err != nil {
 			panic(err)
 		}
 		md := o["metadata"].(map[string]any)
 		md["namespace"] = ns
+		if d.inOtherNS(i) {
+			md["namespace"] = otherNS
+		}
 		labels := md["labels"].(map[string]any)
 		ann := map[string]any{}
 		md["annotations"] = ann
@@ -304,7 +352,11 @@ func runPlace(res *core.Result, d caseData, verbose bool) {
 	describe := func() string {
 		var p []string
 		for i, s := range d.Slots {
-			p = append(p, fmt.Sprintf("%s/%s=%s", gen.PolPool[s].Kind, slotName(s), classNames[d.Classes[i]]))
+			where := ""
+			if d.inOtherNS(i) {
+				where = " [manifest sets metadata.namespace=" + otherNS + "]"
+			}
+			p = append(p, fmt.Sprintf("%s/%s%s=%s", gen.PolPool[s].Kind, slotName(s), where, classNames[d.Classes[i]]))
 		}
 		return strings.Join(p, ", ")
 	}
@@ -321,7 +373,7 @@ func runPlace(res *core.Result, d caseData, verbose bool) {
 			w := env.NewWorld(d.Driver, ns)
 			gen.PutBystanders(w.Sim, 4)
 			nt := gen.TrackNames(w, rel, ns, "op")
-			op := env.Op{Kind: "install", TakeOwnership: takeOwn}
+			op := env.Op{Kind: "install", TakeOwnership: takeOwn, Atomic: d.Atomic}
 			switch scenario {
 			case "install --replace over uninstalled release":
 				w.Exec("pre-install", rel, env.Op{Kind: "install"}, vA.Build())
@@ -345,7 +397,7 @@ func runPlace(res *core.Result, d caseData, verbose bool) {
 			events := w.Sim.Done("op")
 			expectRefuse := len(offenders) > 0 && !takeOwn
 			detail := func() string {
-				return fmt.Sprintf("driver %s | %s, take-ownership=%v | to-be-created resources: %s | err=%q | ledger before [%s] after [%s]", d.Driver, scenario, takeOwn, describe(), r.ErrString(), env.LedgerString(l0), env.LedgerString(l1))
+				return fmt.Sprintf("driver %s | %s, take-ownership=%v atomic=%v | to-be-created resources: %s | err=%q | ledger before [%s] after [%s]", d.Driver, scenario, takeOwn, d.Atomic, describe(), r.ErrString(), env.LedgerString(l0), env.LedgerString(l1))
 			}
 			if verbose {
 				fmt.Printf("%s take-ownership=%v: expect refusal=%v, err=%q, ledger [%s] -> [%s]\n", scenario, takeOwn, expectRefuse, r.ErrString(), env.LedgerString(l0), env.LedgerString(l1))
@@ -363,7 +415,16 @@ func runPlace(res *core.Result, d caseData, verbose bool) {
 			if takeOwn {
 				to = "take-ownership"
 			}
-			res.Key("place|%s|%s|%s|%s", scenario, to, classMultiset(d.Classes), verdict)
+			nOther := 0
+			for i := range d.Slots {
+				if d.inOtherNS(i) {
+					nOther++
+				}
+			}
+			if nOther > 0 {
+				res.Stat("placements_with_explicit_other_namespace", 1)
+			}
+			res.Key("place|%s|%s|atomic=%v|%s|otherNS=%d|%s", scenario, to, d.Atomic, classMultiset(d.Classes), nOther, verdict)
 			if expectRefuse {
 				res.Stat("refusals_expected", 1)
 				res.Stat("refusal_requests_inspected", int64(len(events)))
